@@ -1196,10 +1196,18 @@ func conv(t_dst, t_src types.Type, x value) value {
 			return []value{x}
 		}
 		return x
+	case rlpBox:
+		if _, ok := ut_dst.(*types.Slice); ok {
+			return []value{x}
+		}
+		return x
 	case []value:
 		if len(x) == 1 {
 			if ns, ok := x[0].(numStr); ok {
 				return ns
+			}
+			if bx, ok := x[0].(rlpBox); ok {
+				return bx
 			}
 		}
 		for _, e := range x {
